@@ -1709,3 +1709,19 @@ mod tests {
         assert!(read_result_finalised.get().unwrap().is_ok());
     }
 }
+
+/// Verification hook: run a closure on the store behind the engine's lock.
+#[cfg(feature = "verif")]
+impl BRC20ProgEngine {
+    pub fn verif_with_db<R>(
+        &self,
+        f: impl FnOnce(&mut Brc20ProgDatabase) -> Result<R, Box<dyn Error>>,
+    ) -> Result<R, Box<dyn Error>> {
+        self.db.write_fn(f)
+    }
+
+    /// number of transactions in the block under construction
+    pub fn verif_waiting_tx_count(&self) -> u64 {
+        self.last_block_info.read().waiting_tx_count
+    }
+}
